@@ -283,3 +283,17 @@ PROPS["C03"] = {
         {"name": "c03.random", "engine": "rapid", "quick": R(6, 2500), "thorough": R(16, 60000)},
     ],
 }
+
+PROPS["C18"] = {
+    "binary": "c18_atm",
+    "level": "exploration",
+    "technique": "stateful model-based property testing (rapidcheck): generated histories of manual decisions, trust messages and automatic trust changes against the real ATM manager over the in-memory trust storage, compared with a reference model of XEP-0450 after every step",
+    "level_text": ("Histories of up to 25 operations over a universe of the own account and two contacts with 2-3 keys each, under both security policies: manual authenticate/distrust, trust messages from every (account, key) incl. messages without e2ee metadata, from this very device and with a wrong usage namespace, naming trusted/distrusted keys for up to three owners (in and out of the sender's scope), and keys becoming automatically trusted. "
+                   "After every operation every key's trust level and the multiset of held-back decisions (read through the public trust manager / storage API) equal the reference model: decisions apply iff the sender key is authenticated and in scope, are held back otherwise, fire exactly when the sender key becomes authenticated (cascading), and are discarded when it is distrusted."),
+    "level_note": "Trusted: the reference model in harness/c18_atm.cpp (written from XEP-0450 and the statement). Histories in which one cascade assigns both polarities to a key, or a fired decision is simultaneously held for another unauthenticated sender, depend on an order the statement does not fix: they are discarded and counted in the labels (about 19% of generated histories), never reported.",
+    "rule": "Non-trivial: a held-back decision later fires or is discarded, or a message makes an out-of-scope claim. Distinct = the history text.",
+    "assumptions": ["key ids are globally unique (one owner per id)", "storage tasks complete synchronously (in-memory storage), so each operation is atomic"],
+    "subs": [
+        {"name": "c18.atm", "engine": "rapid", "quick": R(8, 12000), "thorough": R(16, 800000)},
+    ],
+}
